@@ -196,6 +196,8 @@ impl Segment {
             self.start_offset, self.partition_id, self.topic_id, self.stream_id);
         self.initialize_writing().await?;
         self.initialize_reading().await?;
+        #[cfg(feature = "iggy_verif")]
+        crate::verif::fs_event("segment_created", &self.log_path).await;
         info!("Saved segment log file with start offset: {} for partition with ID: {} for topic with ID: {} and stream with ID: {}",
             self.start_offset, self.partition_id, self.topic_id, self.stream_id);
         Ok(())
@@ -332,6 +334,8 @@ impl Segment {
             .with_error_context(|error| {
                 format!("Failed to delete index file: {}. {error}", self.index_path)
             });
+        #[cfg(feature = "iggy_verif")]
+        crate::verif::fs_event("segment_deleted", &self.log_path).await;
 
         let segment_size_bytes = self.size_bytes.as_bytes_u64();
         self.size_of_parent_stream
